@@ -395,6 +395,9 @@ func interpCaseV(kind, pre string, data any, val string, post string) *Case {
 		src = `<p :title="v">t</p>`
 	case "vhtml":
 		src = `<div v-html="v"></div>`
+	case "tplvhtml":
+		// the documented <template v-html> form (the node is evaluated in place), followed by an interpolated sibling
+		src = `<div><template v-html="v"></template><p>` + pre + `{{ v }}` + post + `</p></div>`
 	case "textarea":
 		src = `<div><textarea name="t">` + pre + `{{ v }}` + post + `</textarea></div>`
 	case "title":
@@ -407,6 +410,10 @@ func interpCaseV(kind, pre string, data any, val string, post string) *Case {
 		renderPage(map[string]string{"page.vuego": `<p>STALE-TEXT {{ v | nosuchfilter }}</p>`}, "page.vuego", map[string]any{"v": val})
 	}
 	res := renderPage(map[string]string{"page.vuego": src}, "page.vuego", map[string]any{"v": data})
+	if kind == "tplvhtml" {
+		// … rendered on an engine that has rendered the same page before, with another value, through the cached entry point
+		res = renderPageAfter(map[string]string{"page.vuego": src}, "page.vuego", map[string]any{"v": "<em>EARLIER</em> value"}, map[string]any{"v": data}, len(val)%2 == 0)
+	}
 	c.Impl = res.canon()
 	v := &Verdict{OK: true}
 	c.Oracle = v
@@ -486,6 +493,12 @@ func interpCaseV(kind, pre string, data any, val string, post string) *Case {
 			v.OK, v.Class = false, "interp-attr-value:"+kind
 			v.Detail = fmt.Sprintf("title %q, expected %q; output %q", got, want, res.Out)
 		}
+	case "tplvhtml":
+		if strings.Contains(res.Out, "EARLIER") {
+			v.OK, v.Class, v.Detail = false, "interp-shows-earlier-render:tplvhtml", fmt.Sprintf("the page was rendered before with another value, which shows again: %q", res.Out)
+		} else if val != "" && !strings.Contains(res.Out, strings.TrimSpace(val)) {
+			v.OK, v.Class, v.Detail = false, "vhtml-not-verbatim:tplvhtml", fmt.Sprintf("value %q not found verbatim in %q", val, res.Out)
+		}
 	case "vhtml":
 		if val != "" && !strings.Contains(res.Out, val) {
 			v.OK, v.Class, v.Detail = false, "vhtml-not-verbatim", fmt.Sprintf("value %q not found verbatim in %q", val, res.Out)
@@ -551,7 +564,7 @@ func runC02(r *Run, replay *Case) {
 	vals := append([]string{}, hostileStrings...)
 	nbs := []c01Nb{{"plain", "a ", " b"}, {"none", "", ""}, {"entity", "a &amp; b; ", " c"}, {"lt", "&lt;b&gt; ", " &lt;/b&gt;"}, {"quote", "say &quot;hi&quot; ", " &#39;x&#39;"}}
 	vals = append(vals, "</textarea><b>x</b>", "</title><meta name=x>", "Q&amp;A", "&lt;")
-	for _, kind := range []string{"text", "attr", "bound", "vhtml", "textarea", "title"} {
+	for _, kind := range []string{"text", "attr", "bound", "vhtml", "textarea", "title", "tplvhtml"} {
 		for _, nb := range nbs {
 			for _, v := range vals {
 				r.Add(interpCase(kind, nb.pre, v, nb.post))
